@@ -277,8 +277,9 @@ class Ctx:
         return os.path.join(env["CARGO_TARGET_DIR"], profile, binname)
 
     # ------------------------------------------------------------ correspondence
-    def correspondence(self, name, impl_lines, driver, compare=None, timeout=900):
-        """impl_lines: list of '<case> => <impl result>'.  Runs the model driver on the cases."""
+    def correspondence(self, name, impl_lines, driver, compare=None, timeout=900, shards=1):
+        """impl_lines: list of '<case> => <impl result>'.  Runs the model driver on the cases.
+        shards > 1: the driver is stateless per line, so the cases are split over that many driver processes."""
         cases, impl = [], []
         for l in impl_lines:
             if " => " not in l:
@@ -286,10 +287,25 @@ class Ctx:
             c, r = l.split(" => ", 1)
             cases.append(c)
             impl.append(r.strip())
-        rc, out, _ = sh([driver], input_="\n".join(cases) + "\n", timeout=timeout)
-        model = out.split("\n")
-        if model and model[-1] == "":
-            model.pop()
+        if shards > 1 and len(cases) >= 4 * shards:
+            from concurrent.futures import ThreadPoolExecutor
+            step = (len(cases) + shards - 1) // shards
+            chunks = [cases[i:i + step] for i in range(0, len(cases), step)]
+            with ThreadPoolExecutor(len(chunks)) as ex:
+                res = list(ex.map(lambda ch: sh([driver], input_="\n".join(ch) + "\n", timeout=timeout), chunks))
+            rc = max((r[0] for r in res), key=abs)
+            model = []
+            for r in res:
+                part = r[1].split("\n")
+                if part and part[-1] == "":
+                    part.pop()
+                model += part
+            out = res[-1][1]
+        else:
+            rc, out, _ = sh([driver], input_="\n".join(cases) + "\n", timeout=timeout)
+            model = out.split("\n")
+            if model and model[-1] == "":
+                model.pop()
         diffs = []
         if rc != 0 or len(model) != len(cases):
             self.ob(f"corr:{name}", False, f"driver rc={rc} produced {len(model)} lines for {len(cases)} cases: {out[-200:]}")
